@@ -91,10 +91,11 @@ UnknownNotFound == \A id \in ArgIds, perm \in Perms : FirstIdx(st.act, id) = 0 =
    mean fewer permissions; an observer or a role without flags is granted nothing; every grant is backed by a flag *)
 FullRole(k) == [k |-> k, p |-> FlagsOf(k)]
 EveryPermissionGrantable == last.op = "create" => \A perm \in Perms : \E k \in Kinds : Grant(FullRole(k), perm).cls = "Ok"
-MatrixRules == last.op = "create" =>
+MatrixRules == last.op = "create" /\ mode = "audit" =>
   /\ \A r \in AllRoles, perm \in Perms : Grant(r, perm).cls \in {"Ok", "Unauthorized"}
   /\ \A r \in AllRoles, perm \in Perms : Grant(r, perm).cls = "Ok" => Grant(FullRole(r.k), perm).cls = "Ok" /\ r.p # {}
-  /\ \A r1 \in AllRoles, r2 \in AllRoles, perm \in Perms : r1.k = r2.k /\ r1.p \subseteq r2.p /\ Grant(r1, perm).cls = "Ok" => Grant(r2, perm).cls = "Ok"
+  /\ \A k \in Kinds, perm \in Perms : \A p2 \in SUBSET FlagsOf(k) : \A p1 \in SUBSET p2 :
+        Grant([k |-> k, p |-> p1], perm).cls = "Ok" => Grant([k |-> k, p |-> p2], perm).cls = "Ok"
   /\ \A perm \in Perms : Grant(FullRole("Observer"), perm).cls = "Unauthorized"
   /\ \A perm \in Perms : ~(Grant(FullRole("Leader"), perm).cls = "Ok" /\ Grant(FullRole("Member"), perm).cls = "Ok")
 (* the queries agree with each other *)
